@@ -292,5 +292,61 @@ theorem tortuosity_rel {F : Py.Fld K} {φ : K → K} (hφ : Homog F φ) {norm : 
       | none => rfl
       | some S => simp only [Option.map_some, Option.bind_some, hφ.div]
 end rows
+
+/-! ## bifurcation angles: the hypothesis on the `angle` parameter is stated on the node triples of the two tables -/
+
+/-- `angle` gives the same answer on the edge vectors `pos a − pos c`, `pos b − pos c` of the new table as on those of the old one -/
+def AngleRel (angle : List K → List K → Option K) (n : Nat) (xs ys zs xs' ys' zs' : List K) : Prop :=
+  ∀ a b c : Int, VI n a → VI n b → VI n c →
+    angle (vsub (pos xs' ys' zs' a) (pos xs' ys' zs' c)) (vsub (pos xs' ys' zs' b) (pos xs' ys' zs' c)) =
+    angle (vsub (pos xs ys zs a) (pos xs ys zs c)) (vsub (pos xs ys zs b) (pos xs ys zs c))
+
+theorem kids_VI (pids : List Int) (k c : Int) (h : c ∈ RefineLmGeo.kids pids k) : VI pids.length c := by
+  obtain ⟨j, rfl, hj⟩ := RefineLmGeo.kids_valid pids k c h
+  exact ⟨by omega, by omega⟩
+
+/-- **Bif_ampl_local** of the generated code at a bifurcation is unchanged when `angle` is (`AngleRel`) -/
+theorem bif_ampl_local_rel (angle : List K → List K → Option K) (degrees : K → K) {xs ys zs xs' ys' zs' : List K} (pids : List Int)
+    (hc : RefineLmGeo.Cols pids.length xs ys zs) (hc' : RefineLmGeo.Cols pids.length xs' ys' zs')
+    (ha : AngleRel angle pids.length xs ys zs xs' ys' zs') (k : Nat) (hk : k < pids.length) (a b : Int)
+    (hkids : RefineLmGeo.kids pids (k : Int) = [a, b]) :
+    lm_bif_ampl_local angle degrees (Sub.rangeI pids.length) pids xs' ys' zs' (k : Int) =
+      lm_bif_ampl_local angle degrees (Sub.rangeI pids.length) pids xs ys zs (k : Int) := by
+  rw [((C10.generated_bif_ampl_local angle degrees pids hc.1 hc.2 hc.3 k hk).1 a b hkids).2,
+    ((C10.generated_bif_ampl_local angle degrees pids hc'.1 hc'.2 hc'.3 k hk).1 a b hkids).2,
+    ha a b k (kids_VI pids k a (by rw [hkids]; simp)) (kids_VI pids k b (by rw [hkids]; simp)) ⟨by omega, by omega⟩]
+
+/-- **Bif_ampl_remote** of the generated code at a bifurcation of a well-formed tree is unchanged when `angle` is (`AngleRel`) -/
+theorem bif_ampl_remote_rel (angle : List K → List K → Option K) (degrees : K → K) {xs ys zs xs' ys' zs' : List K} (pids : List Int)
+    (hw : C07.WF pids) (hc : RefineLmGeo.Cols pids.length xs ys zs) (hc' : RefineLmGeo.Cols pids.length xs' ys' zs')
+    (ha : AngleRel angle pids.length xs ys zs xs' ys' zs') (k : Nat) (hk : k < pids.length) (a b : Int)
+    (hkids : RefineLmGeo.kids pids (k : Int) = [a, b]) (Fu : Nat) (hF : pids.length + 1 ≤ Fu) :
+    lm_bif_ampl_remote angle degrees Fu (Sub.rangeI pids.length) pids xs' ys' zs' (k : Int) =
+      lm_bif_ampl_remote angle degrees Fu (Sub.rangeI pids.length) pids xs ys zs (k : Int) := by
+  obtain ⟨la, lb, hla, hlb, _, e⟩ := (C10.generated_bif_ampl_remote angle degrees pids hw hc.1 hc.2 hc.3 k hk Fu hF).1 a b hkids
+  obtain ⟨la', lb', hla', hlb', _, e'⟩ := (C10.generated_bif_ampl_remote angle degrees pids hw hc'.1 hc'.2 hc'.3 k hk Fu hF).1 a b hkids
+  have h1 : la' = la := by rw [hla] at hla'; simpa using hla'.symm
+  have h2 : lb' = lb := by rw [hlb] at hlb'; simpa using hlb'.symm
+  subst h1 h2
+  have va := kids_VI pids k a (by rw [hkids]; simp)
+  have vb := kids_VI pids k b (by rw [hkids]; simp)
+  have last_valid : ∀ (c : Int) (l : Nat), VI pids.length c → (RefineNodeBranch.nodeBranch pids Fu c).getLast? = some (l : Int) →
+      VI pids.length (l : Int) := by
+    intro c l vc hl
+    have hm := List.mem_of_mem_getLast? hl
+    simp only [RefineNodeBranch.nodeBranch, List.mem_append, List.mem_reverse] at hm
+    rcases hm with hm | hm
+    · exact RefineNodeBranch.upC_valid hw Fu c vc.1 vc.2 _ hm
+    · exact RefineNodeBranch.downC_valid hw Fu c vc.1 _ hm
+  rw [e, e', ha _ _ k (last_valid a la' va hla) (last_valid b lb' vb hlb) ⟨by omega, by omega⟩]
+
+/-! ## Sholl counts (`Gen/AlgoSholl`): the count at radius `φ r` over the root distances `φ rad` is the count at `r` over `rad` -/
+
+theorem sholl_intersect_rel (φ : K → K) (hle : ∀ a b, φ a ≤ φ b ↔ a ≤ b) (hlt : ∀ a b, φ a < φ b ↔ a < b) (pairs : List (K × K)) (r : K) :
+    sholl_intersect (RefineSholl.rows (pairs.map fun p => (φ p.1, φ p.2))) (φ r) = sholl_intersect (RefineSholl.rows pairs) r := by
+  rw [RefineSholl.intersect_refines, RefineSholl.intersect_refines, List.filter_map, List.length_map]
+  congr 4
+  funext p
+  simp [RefineSholl.straddle, hle, hlt]
 end generic
 end Invar
